@@ -112,7 +112,9 @@ let kvs_of t =
       (String.split_on_char ',' (List.nth t 2))
   else []
 
-type parsed = Op of op | Flavoured of op * flavour | Skip of string
+(* StrOp: the *_string variant of a byte call (get_string, delete_string, bulk_get_string, bulk_delete_string): executed by
+   Strings.sstep, which passes every returned value through Utf8.lossy *)
+type parsed = Op of op | StrOp of op | Flavoured of op * flavour | Skip of string
 
 let parse (line : string) : parsed =
   let t = List.filter (fun s -> s <> "") (String.split_on_char ' ' line) in
@@ -126,8 +128,10 @@ let parse (line : string) : parsed =
   | "dropdb" -> Op (ODropDb (id_of ("d:" ^ a 1)))
   | "closeall" -> Op OCloseAll
   | "put" | "putstr" -> Op (OPut (id_of ("m:" ^ a 1), unhex (a 2), unhex (a 3)))
-  | "get" | "getstr" -> Op (OGet (id_of ("m:" ^ a 1), unhex (a 2)))
-  | "del" | "delstr" -> Op (ODel (id_of ("m:" ^ a 1), unhex (a 2)))
+  | "get" -> Op (OGet (id_of ("m:" ^ a 1), unhex (a 2)))
+  | "del" -> Op (ODel (id_of ("m:" ^ a 1), unhex (a 2)))
+  | "getstr" -> StrOp (OGet (id_of ("m:" ^ a 1), unhex (a 2)))
+  | "delstr" -> StrOp (ODel (id_of ("m:" ^ a 1), unhex (a 2)))
   | "has" -> Op (OHas (id_of ("m:" ^ a 1), unhex (a 2)))
   | "len" -> Op (OLen (id_of ("m:" ^ a 1)))
   | "empty" -> Op (OEmpty (id_of ("m:" ^ a 1)))
@@ -139,8 +143,10 @@ let parse (line : string) : parsed =
   | "dirty" -> Op (ODirty (id_of ("m:" ^ a 1)))
   | "iter" -> let f = parse_flavour (a 2) in Flavoured (OIter (id_of ("m:" ^ a 1), f), f)
   | "stats" -> Op (OStats (id_of ("m:" ^ a 1)))
-  | "bulkget" | "bulkgetstr" -> Op (OBulkGet (id_of ("m:" ^ a 1), keys_of t))
-  | "bulkdel" | "bulkdelstr" -> Op (OBulkDel (id_of ("m:" ^ a 1), keys_of t))
+  | "bulkget" -> Op (OBulkGet (id_of ("m:" ^ a 1), keys_of t))
+  | "bulkdel" -> Op (OBulkDel (id_of ("m:" ^ a 1), keys_of t))
+  | "bulkgetstr" -> StrOp (OBulkGet (id_of ("m:" ^ a 1), keys_of t))
+  | "bulkdelstr" -> StrOp (OBulkDel (id_of ("m:" ^ a 1), keys_of t))
   | "bulkput" | "bulkputstr" -> Op (OBulkPut (id_of ("m:" ^ a 1), kvs_of t))
   | "putiter" -> Op (OPutIter (id_of ("m:" ^ a 1), kvs_of t))
   | "put@" -> Op (OPutInt (id_of ("m:" ^ a 1), z_of_decimal (a 2), unhex (a 3)))
@@ -278,6 +284,10 @@ let run_ops file =
           | Op o ->
             (if watch && !inside && not (op_okb !w o && api_op o) then begin inside := false; feat ("theorem_domain:first_call_outside_" ^ List.hd (String.split_on_char ' ' line)) end);
             let (w', r) = step !w o in (if watch then (try observe !w w' o with _ -> ())); w := w'; print_endline (print_out FIter r)
+          | StrOp o ->
+            (if watch && !inside && not (op_okb !w o && api_op o) then begin inside := false; feat ("theorem_domain:first_call_outside_" ^ List.hd (String.split_on_char ' ' line)) end);
+            feat "string_variant";
+            let (w', r) = sstep !w (SStr o) in (if watch then (try observe !w w' o with _ -> ())); w := w'; print_endline (print_out FIter r)
           | Flavoured (o, f) ->
             (if watch && !inside && not (op_okb !w o && api_op o) then inside := false);
             let (w', r) = step !w o in w := w'; print_endline (print_out f r)
@@ -386,7 +396,7 @@ let io_run_ops file =
         incr n_api_bad;
         Buffer.add_string xc (Printf.sprintf "api_differs line=%d op=%s io=%s record=%s\n" !lineno (String.sub line 0 (min 60 (String.length line))) (String.sub mine 0 (min 200 (String.length mine))) (String.sub theirs 0 (min 200 (String.length theirs))))
       end
-    | Skip _ -> () in
+    | StrOp _ | Skip _ -> () in
   let of_res : 'a. 'a res -> ('a -> string) -> string = fun r f ->
     match r with Ok a -> f a | Panic t -> "panic:" ^ tagname t | IoErr -> "err" | OutOfFuel -> "hang" in
   (try
